@@ -268,3 +268,21 @@ package atree
 //@        (forall i, j :: 0 <= i && i < j && j < modifiedSlabCount ==> slabIDsWithOwner[i] != slabIDsWithOwner[j]) &&
 //@        (forall i, j :: len(slabIDsWithOwner) - deletedSlabCount <= i && i < j && j < len(slabIDsWithOwner) ==> slabIDsWithOwner[i] != slabIDsWithOwner[j]) &&
 //@        (forall i, j :: 0 <= i && i < modifiedSlabCount && len(slabIDsWithOwner) - deletedSlabCount <= j && j < len(slabIDsWithOwner) ==> slabIDsWithOwner[i] != slabIDsWithOwner[j])
+
+//@ # second view of NondeterministicFastCommit: the apply phase (deletion loop = loop 4, result loop = loop 5).
+//@ # The encoder goroutines are cut; each value received from the result channel is unconstrained except for the recv clause (A7).
+//@ func (s *PersistentSlabStorage) NondeterministicFastCommit@apply(numWorkers) (err)  serves C03 C14 C15
+//@   option start-at-loop 4
+//@   option recv-havoc true
+//@   assume invCoh(s) && s.baseStorage != nil && distinctKeys(deletedSlabIDs) &&
+//@        (forall k :: 0 <= k && k < len(deletedSlabIDs) ==> has(s.deltas, deletedSlabIDs[k]) && s.deltas[deletedSlabIDs[k]] == nil && deletedSlabIDs[k].address != AddressUndefined)
+//@        because "A7 cut: state after the partition loop (proved in the first view): deletedSlabIDs are the distinct owned ids whose pending slab is nil"
+//@   recv 1: assume result.err == nil && result.data != nil ==> has(s.deltas, result.slabID) && s.deltas[result.slabID] != nil &&
+//@        result.slabID.address != AddressUndefined && result.data == enc(s.deltas[result.slabID])
+//@        because "A7 cut: every encoded result is (id, EncodeSlab(deltas[id])) for a still-pending modified owned id (each job is processed once)"
+//@   ensures[C14] forall j SlabID :: view(s, j) == old(view(s, j))
+//@   ensures[C15] invCoh(s)
+//@   ensures[C03] forall id SlabID :: id.address == AddressUndefined ==> untouched(s, id)
+//@   loop 4: invariant invCoh(s) && (forall j SlabID :: view(s, j) == old(view(s, j))) && (forall id SlabID :: id.address == AddressUndefined ==> untouched(s, id)) &&
+//@        (forall k :: i <= k && k < len(deletedSlabIDs) ==> has(s.deltas, deletedSlabIDs[k]) && s.deltas[deletedSlabIDs[k]] == nil)
+//@   loop 5: invariant invCoh(s) && (forall j SlabID :: view(s, j) == old(view(s, j))) && (forall id SlabID :: id.address == AddressUndefined ==> untouched(s, id))
